@@ -42,9 +42,11 @@ def cs(s):
 
 
 # ------------------------------------------------------------------ scenarios
-def scenario(cid, lose, mode, phase, endpoints, closing=None, mid_ms=0, bound_ms=None, drop=0, ghost="", extra=0, delay_ms=None):
+def scenario(cid, lose, mode, phase, endpoints, closing=None, mid_ms=0, bound_ms=None, drop=0, ghost="", extra=0, delay_ms=None,
+             grace_ms=None, rebalance=False, inflight_at_lost=False):
     n = sum(len(e["listeners"]) for e in endpoints)
-    return {"id": cid, "lose": lose, "mode": mode, "phase": phase, "gossip_ms": GOSSIP_MS, "grace_ms": GRACE_MS,
+    return {"id": cid, "lose": lose, "mode": mode, "phase": phase, "gossip_ms": GOSSIP_MS, "grace_ms": grace_ms or GRACE_MS,
+            "rebalance": rebalance, "inflight_at_lost": inflight_at_lost,
             "delay_ms": delay_ms or DELAY_MS, "endpoints": endpoints, "closing": closing or (["shutdown", "ctx"] * n)[:n],
             "bound_ms": bound_ms or BOUND_MS, "mid_ms": mid_ms, "drop_reconnects": drop, "ghost": ghost, "extra": extra}
 
@@ -81,6 +83,12 @@ def builtin_corpus():
         # requests that take 3 s are in flight through the departing node: withdrawing its upstreams and announcing the
         # departure must not wait for them
         scenario("graceful-long-inflight", 0, "graceful", "inflight", [{"id": "ea", "listeners": [0, 1]}, {"id": "eb", "listeners": [0]}], delay_ms=3000),
+        # every node runs the (never triggered) rebalance loop: shutdown still terminates
+        scenario("graceful-rebalance-enabled", 1, "graceful", "connected", [{"id": "ea", "listeners": [1, 0]}], rebalance=True),
+        # a 3 s request that entered at the departing node and is served by a survivor's upstream outlasts the 0.8 s grace
+        # period: the shutdown runs out of time while draining its proxy, the departure is announced all the same
+        scenario("graceful-grace-exhausted", 0, "graceful", "inflight", [{"id": "ea", "listeners": [1]}, {"id": "eb", "listeners": [0]}],
+                 delay_ms=3000, grace_ms=800, inflight_at_lost=True),
     ]
 
 
@@ -158,7 +166,8 @@ def monitor(sc, o):
                                                        % (l["endpoint"], l["idx"], l["at_loss"], lost, l["returned"], l.get("returned_ms", 0) - o["loss_at_ms"])}
     # --- graceful: terminates within the grace period, withdraws, publishes the marker
     if mode == "graceful":
-        if o["loss_ms"] > o["grace_ms"]:
+        # the waits inside Shutdown end AT the deadline; what follows (closing listeners, returning) takes a few milliseconds more
+        if o["loss_ms"] > o["grace_ms"] + 250:
             return {"sig": "grace-exceeded", "why": "Shutdown took %d ms, grace period %d ms" % (o["loss_ms"], o["grace_ms"])}
         if L["endpoints_after"]:
             return {"sig": "still-advertising", "why": "after Shutdown returned (and %d ms of polling) node %s still holds upstream connections / advertises %r"
@@ -192,7 +201,17 @@ def monitor(sc, o):
                 return {"sig": "notified-not-left", "hard": o["loss_ms"] < 1500,
                         "why": "the instant Shutdown of %s returned (after %d ms) only %r of its %d live peers had it as left (Leave notifies 4)" % (lost, o["loss_ms"], told, len(notified))}
             notified = told
-        for s in o["survivors"]:
+        exhausted = o["loss_ms"] >= sc["grace_ms"] - 25
+        if exhausted:
+            # the grace period ran out while the proxy was draining (a request in flight outlasted it): Shutdown has to return, the
+            # leave announcement is already on its way and reaches the peers right after - it is not dropped
+            for s_ in o["survivors"]:
+                t_left = [x["ms"] - o["loss_at_ms"] for x in s_["timeline"] if x["status"] == "left"]
+                if s_["node"] in notified and (not t_left or t_left[0] > o["loss_ms"] + 1500):
+                    return {"sig": "departure-not-announced",
+                            "why": "the shutdown of %s used up its grace period (%d ms); peer %s %s" % (lost, sc["grace_ms"], s_["node"],
+                                   "never saw it leave (status changes %r)" % [x["status"] for x in s_["timeline"]] if not t_left else "saw the departure only %d ms after the shutdown began" % t_left[0])}
+        for s in ([] if exhausted else o["survivors"]):
             if s["node"] in notified and s["instant"] != "left":
                 # the leave stream is synchronous (acknowledged after ApplyDelta, the status is set in the watcher callback):
                 # when Shutdown returned quickly - no dial or stream timeout can have happened - the recorded state is hard
@@ -324,11 +343,21 @@ def schedule_of(o):
         else:
             after.append(ep)
     # the shuffle of Leave is not observable: the peers that had the node as left the instant Shutdown returned come first
-    told_first = [s["node"] for s in o["survivors"] if s["instant"] == "left"]
+    told_first = told_peers(o)
     live = "(%s)" % c_strs([p for p in L["live_before"] if p in told_first] + [p for p in L["live_before"] if p not in told_first])
     sched = ["StNotReady", "StUpstream"] + ["StExit %s" % cs(e) for e in before] + ["StProxy", "StLeave %s" % live] \
         + ["StExit %s" % cs(e) for e in after] + ["StGossipClose", "StAdmin"]
     return conns, sched, live
+
+
+def told_peers(o):
+    """the peers the leave announcement reached: those holding the node as left the instant Shutdown returned; when the shutdown
+    used up its grace period (Shutdown returns at the deadline, the announcement is still on its way) those that hold it as left
+    within 1.5 s of that"""
+    if o["loss_ms"] >= o["grace_ms"] - 25:
+        return [s["node"] for s in o["survivors"]
+                if any(x["status"] == "left" and x["ms"] - o["loss_at_ms"] <= o["loss_ms"] + 1500 for x in s["timeline"])]
+    return [s["node"] for s in o["survivors"] if s["instant"] == "left"]
 
 
 def cases_of(sc, o):
@@ -355,7 +384,7 @@ def cases_of(sc, o):
         own = L["own"]
         marker = any(e["key"] == "_internal:left" and e["internal"] and not e["deleted"] for e in own["entries"])
         adv = any(e["key"].startswith("endpoint:") and not e["deleted"] for e in own["entries"])
-        inst = [s["node"] for s in o["survivors"] if s["instant"] == "left"]
+        inst = told_peers(o)
         ob = "(Build_shut_obs %s %s %s %s %s %s %s %s %s)" % (
             coq_bool(not L["endpoints_after"]), coq_bool(not L["endpoints_after"] and not adv), coq_bool(own["left"]), coq_bool(marker),
             coq_bool(L["proxy_open"]), coq_bool(L["upstream_open"]), coq_bool(L["admin_open"]), coq_bool(L["gossip_open"]), c_strs(inst))
